@@ -44,6 +44,7 @@ def c07(ck, tier, seed):
                        "re-projected (conc.stable) and the collection must be exact for inner nodes and terminals")
     import checks
     checks.store_mc(ck, tier)
+    checks.substid_mc(ck)
     ck.assumptions += ["schedules are those the OS produced (sampling); weak-memory effects are not modelled",
                        "design-level exploration of all interleavings: MC_StoreConc when present in model_checking_runs"]
 
